@@ -572,6 +572,55 @@ def r02_9(chk, facts, rid='R02.9'):
             else: chk.fail(rid, site, fn['file'], c.get('l'), '%s stores the code point only when it is <= %s: code points up to 0x10FFFF are legal' % (fn['n'], hex(min(ub))), None, fn['q'])
     chk.require(n >= 2, '%s: only %d bounded code point stores found in unicode_traits.hpp' % (rid, n))
 
+def r02_10(chk, facts):
+    """\\uXXXX escapes denote scalar values: surrogates only in high-low pairs."""
+    chk.rule('R02.10', 'surrogate discipline of parse_string: the statement that combines two escapes into one code point '
+                       '(`0x10000 + ((cp_ & 0x3FF) << 10) + (cp2_ & 0x3FF)`) is reached only after the second escape tested as a low surrogate, '
+                       'and a single escape is converted to text only when it is neither a high nor a low surrogate (a lone low surrogate '
+                       'is an error like a lone high one, not silently dropped)', floor=4)
+    n = 0
+    for fn in U.functions(facts, cls='basic_json_parser', name='parse_string'):
+        if fn.get('body') is None: continue
+        chk.analysed(fn)
+        g = C.CFG(fn['body'])
+        def surro_guards(nd):
+            out = []
+            for a, lab, e in g.guards(nd):
+                ct = G.call_truth(a)
+                if ct and A.callee_name(ct[0]) in ('is_low_surrogate', 'is_high_surrogate', 'is_surrogate'):
+                    arg = A.ref_name((ct[0].get('args') or [None])[0])
+                    out.append((A.callee_name(ct[0]), arg, bool(lab) == ct[1]))
+            return out
+        for nd in g.rpo:
+            if nd.kind != 'stmt' or not isinstance(nd.ast, dict): continue
+            # (a) the pair combination
+            comb = [y for y in A.walk_no_lambda(nd.ast) if y.get('k') == 'BinaryOperator' and y.get('op') == '+' and any(A.const(z) == 0x10000 for z in A.walk(y)) and any(z.get('op') == '<<' for z in A.walk(y))]
+            comb = sorted(comb, key=lambda y: -sum(1 for _ in A.walk(y)))[:1]       # the whole sum, not its left-associated prefix
+            if comb:
+                n += 1
+                second = [A.ref_name(z.get('lhs')) for z in A.walk(comb[0]) if z.get('k') == 'BinaryOperator' and z.get('op') == '&' and A.const(z.get('rhs')) == 0x3FF]
+                sg = surro_guards(nd)
+                ok = any(nm == 'is_low_surrogate' and val is True and arg in second for nm, arg, val in sg)
+                site = U.site(fn, 'surrogate pair combination')
+                if ok: chk.ok('R02.10', site, {'line': nd.line})
+                else: chk.fail('R02.10', site, fn['file'], nd.line, 'parse_string combines two \\u escapes into a code point (line %s) without having tested the second one as a low surrogate: '
+                               '"\\uD800\\u0041" decodes to U+10041' % nd.line, None, fn['q'])
+            # (b) conversion of a single escape
+            for c in A.calls_in(nd.ast):
+                if A.callee_name(c) == 'convert' and c.get('args'):
+                    a0 = A.strip(c['args'][0], casts=True)
+                    tgt = A.ref_name(a0.get('sub')) if a0 is not None and a0.get('k') == 'UnaryOperator' and a0.get('op') == '&' else None
+                    if tgt != 'cp_': continue
+                    n += 1
+                    sg = surro_guards(nd)
+                    hi = any(nm in ('is_high_surrogate', 'is_surrogate') and arg == 'cp_' and val is False for nm, arg, val in sg)
+                    lo = any(nm in ('is_low_surrogate', 'is_surrogate') and arg == 'cp_' and val is False for nm, arg, val in sg)
+                    site = U.site(fn, 'single escape conversion')
+                    if hi and lo: chk.ok('R02.10', site, {'line': nd.line})
+                    else: chk.fail('R02.10', site, fn['file'], nd.line, 'parse_string converts a single \\u escape to text (line %s) without excluding %s surrogates: a lone surrogate is not a '
+                                   'scalar value and is silently lost' % (nd.line, 'low' if hi else ('high' if lo else 'high and low')), None, fn['q'])
+    chk.require(n >= 4, 'R02.10: surrogate sites of parse_string not found (%d)' % n)
+
 def run(chk, tier, only_rule=None):
     chk.explanation = EXPLANATION
     chk.not_decided = NOT_DECIDED
@@ -585,6 +634,7 @@ def run(chk, tier, only_rule=None):
     r02_7(chk, facts)
     r02_8(chk, facts)
     r02_9(chk, facts)
+    r02_10(chk, facts)
     # a number or string token may straddle two chunks: the resume rule of C03 is a necessary condition of accepting the same texts
     from . import c03
     c03.r03_1_2(chk, facts)
